@@ -21,7 +21,18 @@ PROPS = {
     'C17': dict(units=['world'], witness='alloc',
                 assumptions=[HEADROOM]),
     'C03': dict(units=['join'], witness=None, assumptions=[HEADROOM] + STORAGE_ASSUME),
-    'C04': dict(units=['storage', 'flagged'], witness=None, assumptions=[HEADROOM] + STORAGE_ASSUME),
+    'C04': dict(units=['storage', 'flagged'], witness=None, assumptions=[HEADROOM] + STORAGE_ASSUME + [
+                    "BOUNDED part (Kani, reported under coverage.bounded): Vec/DenseVec/DefaultVec storages against the raw-operation contract from every well-formed state within the stated small bounds; u16 components; BTreeStorage/HashMapStorage conformance is ASSUMED from std map semantics (one-line delegations through a cell); NullStorage only in the C08 harness"],
+                kani=dict(files=['storages_harness.rs'], quick=['dense_step_small', 'dense_clean'], thorough=['dense_step', 'vec_step', 'default_vec_step'], timeout=3000)),
+    'C08': dict(units=['storage'], witness=None, level='other',
+                # deductive support for the harness assumption "clean() gets the true mask": the mask/content invariant and the exact
+                # map effect of every layer function that moves a value in or out (Verus, unit storage)
+                also=[r'^storage::(MaskedStorage|Storage\(&mut\)|OccupiedEntry|VacantEntry|Drain_\w+)::\w+::ens\.(wf|map|ret|raw)$', r'^storage::UnprotectedStorage::drop\(default\)::'],
+                explanation="BOUNDED stand-in (Kani/CBMC harnesses on the real unsafe storage code with a destructor ledger) decides this property; Verus has no destructor semantics, so the exactly-once statement itself is never counted as proved. The Verus obligations listed here only discharge the harnesses' assumption that the layer keeps mask and content in step (so clean()/drop see the true mask and every moved-out value leaves the map). Each harness explores, symbolically and exhaustively within its bound, every choice of indices/operation; CBMC's pointer-safety checks (use after free, double free, out-of-bounds, invalid dereference) are enabled on the real code. Bounds are listed per harness under coverage.bounded.",
+                assumptions=["bounds: <= 2-3 stored components over indices < 3, ONE arbitrary operation after a symbolic insertion prefix, then clean(true mask) and drop; u8-tagged tokens (VecStorage, DenseVecStorage), a zero-sized counting type (NullStorage)",
+                             "the mask handed to clean() is the true mask: that MaskedStorage keeps it true is the Verus-proved layer invariant (C04)",
+                             "outside: DefaultVecStorage/BTree/HashMap kinds in the ledger harness, the lazy queue (SegQueue), world teardown order, ChangeSet, panicking destructors (C19 n/a)"],
+                kani=dict(files=['ownership_harness.rs', 'storages_harness.rs'], quick=['own_vec', 'own_dense', 'own_null', 'dense_clean'], thorough=['own_drain'], timeout=3000)),
     'C12': dict(units=['flagged', 'flagged_ec', 'storage'], witness=None,
                 assumptions=STORAGE_ASSUME + ["shrev::EventChannel::single_write appends one event and a reader registered earlier receives appended events in order (assumed contract on shrev)",
                                               "FlaggedStorage::shared_get_mut (raw pointer into the channel, used only by parallel joins) is excluded",
@@ -35,6 +46,7 @@ PROPS = {
                     "N8: LendJoin's GAT Type<'next> is collapsed to a plain associated type; the `&mut Storage` lending member is therefore checked as free functions with the same clauses",
                     "JoinLendIter::for_each (closure capturing &mut) and the `&mut Storage` non-lending Join member (SharedGetMutOnly raw sharing) are not under contract"]),
     'C16': dict(units=['changeset'], witness=None,
+                kani=dict(files=['storages_harness.rs'], quick=['dense_step_small'], thorough=['dense_step', 'dense_clean'], timeout=3000),
                 assumptions=STORAGE_ASSUME + ["the inner DenseVecStorage<T> is an opaque implementor of the trait-level storage contract here; its conformance is the bounded Kani part (C04 kinds)",
                                               "`T: AddAssign` is modelled by a spec function add_spec(old, new) (arbitrary, possibly non-commutative); `a += b` is desugared to AddAssign::add_assign(&mut a, b) (N16)",
                                               "FromIterator/Extend loops over a generic IntoIterator are not under contract (they call add once per pair in iteration order); the `&mut ChangeSet` non-lending Join member (SharedGetMutOnly) is not under contract"]),
@@ -56,6 +68,11 @@ PROPS = {
 TB = "Trusted: prelude stubs for hibitset / NonZeroI32 / atomics / Vec::extend (assumed contracts), N3 sequentialisation, headroom preconditions, Verus+Z3, the vx extractor's closed list of normalisations (each application recorded in the evidence)."
 
 MANIFEST_TEXT = {
+    'C08': dict(
+        category='other',
+        level="Bounded stand-in, never counted as proved: Kani/CBMC harnesses drive the real unsafe storage kinds (VecStorage, DenseVecStorage, NullStorage; thorough: MaskedStorage + Drain with the real bit set) with a destructor ledger from a symbolic insertion prefix through one arbitrary operation to clean()/drop, asserting each value is destroyed xor handed back exactly once, with CBMC's memory-safety checks on. Verus cannot state this property (no destructor semantics).",
+        design_ref='DESIGN.md §5 C08', note='bounded (<= 3 slots, one operation); Kani+CBMC trusted; DefaultVec/BTree/HashMap kinds, lazy queue, teardown order outside.',
+        technique='bounded Kani harnesses with a destructor ledger on the real unsafe code (stand-in for a contract)'),
     'C20': dict(
         level="Reduced: for the allocator, world-level deletion, join iteration and marker-id allocation, the postconditions verified by Verus are functional (result and successor abstract state are spec functions of the predecessor state and arguments), so two equal single-threaded histories give equal handles, results and visit orders; lemma_deterministic proves this by induction over histories and lemma_kill_stop_unique/lemma_visit_order cover the two places where a relation rather than a function is stated. Serialised output, event streams and cross-process replay are outside.",
         design_ref='DESIGN.md §5 C20', note=TB,
